@@ -459,6 +459,46 @@ def build_source(case, prelude: str) -> str:
 # Coq encoding
 # ---------------------------------------------------------------------------------------
 
+_DISP = {}
+
+
+def valuation(t, d: str) -> str:
+    """Gallina valuation of the dispatch tests for the real type object t (direction d): the tests of the translated
+    chains (K5D) evaluated with the library's own predicates; only the tests that hold are listed."""
+    import importlib.util
+    import os
+    import types as _types
+    from mashumaro.core.meta.helpers import get_args, get_type_origin
+    if not _DISP:
+        import mashumaro.core.meta.types.pack as pack
+        import mashumaro.core.meta.types.unpack as unpack
+        sp_ = importlib.util.spec_from_file_location("vk_k5d_p", os.path.join(vlib.VERIF, "tools", "kernels", "k5d_dispatch.py"))
+        k5d = importlib.util.module_from_spec(sp_)
+        sp_.loader.exec_module(k5d)
+        _DISP.update(texts=k5d.test_texts(), mods={"pack": pack, "unpack": unpack}, cache={})
+    side = "pack" if d == "ser" else "unpack"
+    key = (side, repr(t))
+    if key in _DISP["cache"]:
+        return _DISP["cache"][key]
+    fake_builder = _types.SimpleNamespace(get_field_resolved_type_params=lambda name: {}, cls=object, is_nailed=True, dialect=None,
+                                          initial_type_args=(), format_name="dict", encoder=None, decoder=None)
+    sp = _types.SimpleNamespace(type=t, origin_type=get_type_origin(t), builder=fake_builder,
+                                field_ctx=_types.SimpleNamespace(name="x", metadata={}), annotations=(), expression="value",
+                                no_copy_collections=())
+    loc = {"spec": sp, "args": get_args(t), "resolved_type_params": {}, "constraints": (), "evaluated": None,
+           "method_name": "m", "method_loc": object}
+    true_tests = []
+    for tx in _DISP["texts"][side]:
+        try:
+            if eval(tx, _DISP["mods"][side].__dict__, loc):
+                true_tests.append(tx)
+        except Exception:  # noqa: BLE001  (a test that cannot be evaluated for this type is not reached)
+            pass
+    out = "(memv [" + "; ".join(vlib.coq_str(x) for x in true_tests) + "])"
+    _DISP["cache"][key] = out
+    return out
+
+
 def marker(slot: str) -> int:
     if slot == "F1":
         return 1
@@ -546,6 +586,10 @@ def coq_case(case, d, obs) -> str:
     # path: class links first, then the type steps of the observed field
     kself, kopt, ktup = "(KObj 140)", "(KObj 141)", "(KObj 142)"
     path, posmap = [], []
+    vpath = []          # the same path with valuations instead of step kinds (PositionsV.vnode)
+    import typing as _ty
+    ns = {}
+    exec("import datetime, decimal\nfrom typing import *\n" + "\n".join(term.defs), ns)
     # root context: the first link's field of C0, or the observed field itself
     decls = []      # (decl, then the nodes that follow inside that field's type, then NField)
     ci = 0
@@ -561,32 +605,40 @@ def coq_case(case, d, obs) -> str:
     term_decl = tid(term.top)
     first_decl = None
     for k, (ln, c) in enumerate(seqs):
+        vinner = []
         if ln == "field":
             d0, inner = cls[c + 1], []
         elif ln == "field_coll":
             # List['C'] / Dict[str, 'C']: a collection node (exact key 160+c, origin 170/171), then its element
             d0, inner = f"(KObj {160 + c})", [f"NType TElement {cls[c + 1]}"]
+            vinner = [f"VType {valuation(_ty.List[int] if coll_kind == 'list' else _ty.Dict[str, int], d)} {cls[c + 1]}"]
             org.append(f"((KObj {160 + c}), (KObj {170 if coll_kind == 'list' else 171}))")
         elif ln == "self_opt":
             d0, inner = kopt, [f"NType TOptional {kself}"]
+            vinner = [f"VType {valuation(_ty.Optional[_ty.Self], d)} {kself}"]
         else:
-            d0, inner = ktup, [f"NType TElement {kself}"]
+            d0, inner = ktup, [f"NType TTupleItem {kself}"]
+            vinner = [f"VType {valuation(_ty.Tuple[_ty.Self, ...], d)} {kself}"]
         if first_decl is None:
             first_decl = d0
         else:
             path.append(f"NField {'true' if prev_self else 'false'} no_fieldopts {d0}")
+            vpath.append(f"VSelf {valuation(_ty.Self, d)} no_fieldopts {d0}" if prev_self else f"VData no_fieldopts {d0}")
         path += inner
+        vpath += vinner
         prev_self = ln in ("self_opt", "self_list")
     if first_decl is None:
         first_decl = term_decl
         root_f = fopts
     else:
         path.append(f"NField {'true' if prev_self else 'false'} {fopts} {term_decl}")
+        vpath.append(f"VSelf {valuation(_ty.Self, d)} {fopts} {term_decl}" if prev_self else f"VData {fopts} {term_decl}")
         root_f = "no_fieldopts"
     base_len = len(path)
     for nd in term.nodes[:-1]:
         nxt = term.nodes[nd["idx"] + 1]
         path.append(f"NType {nd['step']} {tid(nxt['ann'] or nxt['ex'])}")
+        vpath.append(f"VType {valuation(ns[nd['ex']], d)} {tid(nxt['ann'] or nxt['ex'])}")
     pm = [0] * base_len + positions(term)
     # root sources: tables of C0 (its own config: the owner's when there is no field link, else decoy/none)
     root_cfg_cd, root_cfg = ("None", "[]")
@@ -607,7 +659,7 @@ def coq_case(case, d, obs) -> str:
     else:
         o = "OOther"
     return (f"({'Ser' if d == 'ser' else 'De'}, ([{'; '.join(org)}], [{'; '.join(anns)}], {flags}, [{'; '.join(cfgs)}]), "
-            f"({rootS}, {first_decl}, {cls[0]}), [{'; '.join(path)}], [{'; '.join(str(x) for x in pm)}], {o})")
+            f"({rootS}, {first_decl}, {cls[0]}), [{'; '.join(path)}], [{'; '.join(vpath)}], [{'; '.join(str(x) for x in pm)}], {o})")
 
 
 _SLOTS = None
@@ -631,9 +683,10 @@ Definition mkP (t: list (kv * kv) * list kv * list (kv * bool) * list (kv * (opt
   match t with (org, anns, fl, cf) =>
     {| p_rt := fun v => v; p_org := lk org; p_isann := fun v => existsb (kv_eqb v) anns;
        p_flags := fun v => {| g_on := false; g_ba := false; g_dl := lkb fl v; g_cx := false |}; p_cfg := lkc cf |} end.
+Definition memv (l: list string) (t: string) : bool := existsb (String.eqb t) l.
 Definition path_case : Type :=
   dir * (list (kv * kv) * list kv * list (kv * bool) * list (kv * (option table * table))) * (sources * kv * kv)
-  * list node * list nat * pobs.
+  * list node * list VNODE * list nat * pobs.
 Definition eK := KStr "value".
 Definition obs_of (pm: list nat) (r: option (nat * kv)) : pobs :=
   match r with
@@ -659,7 +712,7 @@ Definition ref_obs (d: dir) (P: prims) (c: pctx) (path: list node) (pm: list nat
 
 COQ_OK_KERNEL = """
 Definition path_ok (x: path_case) : bool :=
-  match x with (d, pt, (Sr, decl, holder), path, pm, o) =>
+  match x with (d, pt, (Sr, decl, holder), path, _, pm, o) =>
     let P := mkP pt in
     let c := {| x_S := Sr; x_ann := KNone; x_decl := decl; x_holder := holder |} in
     pobs_eqb (ref_obs d P c path pm) o &&
@@ -667,9 +720,21 @@ Definition path_ok (x: path_case) : bool :=
   end.
 """
 
+# with the dispatch kernel: the path with valuations goes through the translated dispatch chains (PositionsV.compile_v)
+COQ_OK_DISPATCHED = """
+Definition path_ok (x: path_case) : bool :=
+  match x with (d, pt, (Sr, decl, holder), path, vpath, pm, o) =>
+    let P := mkP pt in
+    let c := {| x_S := Sr; x_ann := KNone; x_decl := decl; x_holder := holder |} in
+    pobs_eqb (ref_obs d P c path pm) o &&
+    match compile d P Sr (spec_of P c) holder eK path 0 with Ok r => pobs_eqb (obs_of pm r) o | Raise _ => false end &&
+    match compile_v d P Sr (spec_of P c) holder eK vpath with Some (Ok r) => pobs_eqb (obs_of pm r) o | _ => false end
+  end.
+"""
+
 COQ_OK_MODEL = """
 Definition path_ok (x: path_case) : bool :=
-  match x with (d, pt, (Sr, decl, holder), path, pm, o) =>
+  match x with (d, pt, (Sr, decl, holder), path, _, pm, o) =>
     let P := mkP pt in
     let c := {| x_S := Sr; x_ann := KNone; x_decl := decl; x_holder := holder |} in
     pobs_eqb (ref_obs d P c path pm) o
